@@ -212,6 +212,57 @@ theorem sleep_always_fires (s : World) (pre post : List Op) (slp : Sleep) (wk : 
     simp only [isCompleted_iff]
     exact always_fires s pre post k hwf hnp (hissued k hk).1 (hissued k hk).2
 
+/-! ### `poll_with`: no starvation, whatever the driver reports
+
+The statement list of `Runtime::poll_with` is regenerated from the source (extractor target
+`PollWith`); `pollWith` interprets it with the outcome of the driver poll as a free parameter. -/
+
+/-- `poll_with` panics exactly on an unexpected driver error … -/
+theorem poll_with_panics_iff (w : Wheel) (now : Nat) (o : PollOutcome) :
+    pollWith w now o = none ↔ o = .otherError := by
+  constructor
+  · intro h
+    apply Classical.byContradiction
+    intro ho
+    rw [pollWith_eq_wake w now o ho] at h
+    simp at h
+  · rintro rfl
+    exact pollWith_panics w now
+
+/-- … and **after every other return of `poll_with` every timer whose deadline has been reached is
+out of the wheel**, its waker invoked — whether the driver poll timed out, was interrupted, or
+returned `Ok(())` because completions or wake-ups kept coming. A runtime that never idles in the
+driver cannot starve its timers. -/
+theorem poll_with_sweeps (w w' : Wheel) (now : Nat) (o : PollOutcome) (ex : List Entry) (hwf : WF w)
+    (h : pollWith w now o = some (w', ex)) :
+    (∀ k ∈ keys w'.entries, now < k.deadline) ∧
+      (∀ e, e ∈ ex ↔ e ∈ w.entries ∧ e.1.deadline ≤ now) ∧
+      (∀ k wk, (k, some wk) ∈ w.entries → k.deadline ≤ now → wk ∈ woken ex) ∧ WF w' := by
+  have ho : o ≠ .otherError := fun e => by rw [e, pollWith_panics] at h; simp at h
+  rw [pollWith_eq_wake w now o ho] at h
+  simp only [Option.some.injEq] at h
+  have h1 : w' = (wake w now).1 := by rw [h]
+  have h2 : ex = (wake w now).2 := by rw [h]
+  subst h1 h2
+  exact ⟨fun k hk => wake_fires_all_due w now hwf k hk, fun e => wake_expired_exact w now hwf e,
+    fun k wk hin hdue => wake_wakes w now hwf k wk hin hdue, hwf.wake now⟩
+
+/-- for whole runs: any activity `pre`, then a `poll_with` returning in ANY way at a moment when the
+issued key `k` is due, then any activity `post` — `k` is gone for good -/
+theorem poll_with_always_fires (s : World) (pre post : List Op) (k : Key) (o : PollOutcome)
+    (w' : Wheel) (ex : List Entry)
+    (hwf : WF s.wheel) (hnp : Out.ins .panic ∉ outs s pre) (hissued : k.gen < s.wheel.gen)
+    (hdue : k.deadline ≤ (run s pre).now)
+    (h : pollWith (run s pre).wheel (run s pre).now o = some (w', ex)) :
+    k ∉ keys (run ⟨(run s pre).now, w'⟩ post).wheel.entries := by
+  have ho : o ≠ .otherError := fun e => by rw [e, pollWith_panics] at h; simp at h
+  rw [pollWith_eq_wake _ _ o ho] at h
+  simp only [Option.some.injEq] at h
+  have hw : w' = (wake (run s pre).wheel (run s pre).now).1 := by rw [h]
+  have := always_fires s pre post k hwf hnp hissued hdue
+  rw [run_append] at this
+  simpa [run, step, hw] using this
+
 /-! ## 4. `min_timeout`: an idle runtime sleeps no longer than the nearest deadline -/
 
 theorem min_timeout_none_iff (w : Wheel) (now : Nat) : minTimeout w now = none ↔ w.entries = [] := by
